@@ -314,6 +314,16 @@ order:
                 }
             }
             for (i = 0; !det && y1 && i < MAXDEP && subs1[i]; i++) y1 = append_sub(y1, subs1[i]);
+            if (!det && yin && m1->parsed) {
+                /* the submodules as they were served to the YIN re-parse */
+                LY_ARRAY_FOR(m1->parsed->includes, u) {
+                    char *sy;
+                    if (!m1->parsed->includes[u].submodule) continue;
+                    sy = print_sub(m1->parsed->includes[u].submodule, LYS_OUT_YIN);
+                    yin = append_sub(yin, sy);
+                    free(sy);
+                }
+            }
             vp_begin(id, "ok");
             {
                 static const char *names[11] = {"yang_parse", "yang_compiled", "yang_reprint", "yang_sub", "yin_parse", "yin_compiled",
